@@ -202,12 +202,17 @@ def r5(idx, rep):
             bad = bad or f"{cfg}: print() votes {FM_final(p)!r}; it never affects matching"
     rep.check(bad is None, "R5", f"{fi.file}::Print._decide_match table", bad or f"{n} rows", K.where(fi, fi.node))
     # fan-out
-    for meth, call in (("print", "p.print(string)"), ("print_to", "p.print_to(name, string)")):
+    for meth, args, want in (("print", {"string": "S"}, ("print", ["S"])), ("print_to", {"name": "N", "string": "S"}, ("print_to", ["N", "S"]))):
         f = idx.method("CsvPath", meth)
         rep.analysed(f)
-        loops = [x for x in f.node.body if isinstance(x, ast.For)]
-        ok = len(loops) == 1 and unparse(loops[0].iter) == "self.printers" and len(loops[0].body) == 1 and unparse(loops[0].body[0]) == call
-        rep.check(ok, "R5", f"{f.file}::CsvPath.{meth} reaches every printer", unparse(f.node)[-120:], K.where(f, f.node))
+        got = []
+        hs = {}
+        for pn in ("p0", "p1", "p2"):
+            for m in ("print", "print_to"):
+                hs[f"{pn}.{m}"] = (lambda i, c, r, a, k, pn=pn, m=m: got.append((pn, m, list(a) + [k[x] for x in sorted(k)])))
+        ps = Interp(idx, types={"self": "CsvPath"}, unknown_calls="residual", handlers=hs).run_all(f, args=dict(args), store={"self.printers": [Obj("p0"), Obj("p1"), Obj("p2")], "self._printers": [Obj("p0"), Obj("p1"), Obj("p2")]})
+        ok = len(ps) == 1 and ps[0].result[0] == "return" and got == [(pn, want[0], want[1]) for pn in ("p0", "p1", "p2")]
+        rep.check(ok, "R5", f"{f.file}::CsvPath.{meth} reaches every printer", f"three printers: calls {got}; documented one {want[0]}{tuple(want[1])} per printer, in order", K.where(f, f.node))
     # do_once / _set_has_happened agree on the bookkeeping variable
     f1 = idx.method("Qualified", "_has_not_yet")
     f2 = idx.method("Qualified", "_set_has_happened")
